@@ -143,8 +143,8 @@ def step(st: State, op: str, a: dict, werr: bool, probes=(), micro=True):
     finally:
         Tracer.active = None
     ev = {'op': op, 'a': a, 'out': out, 'probes': list(probes), 'micro': mic, 'same': digest(st) == d0}
-    if out == 'ok':
-        ev['post'] = observe(st, n0)
+    if out == 'ok' or not ev['same']:
+        ev['post'] = observe(st, n0)      # also when a call that raised has changed the state: validation goes on from there
     else:
         ev['post'] = {}
     if out.startswith('Other:'):
